@@ -2,6 +2,8 @@
  * (sizes used by the checks are <= ~2000) and then draw values. */
 #include "hx.h"
 
+int_t gen_onesK[64]; int gen_nones;   /* index set of the last "onesblock" */
+
 static void shuffle(rng_t *r, int_t *p, int_t n)
 {
     for (int_t i = 0; i < n; ++i) p[i] = i;
@@ -142,6 +144,42 @@ int gen_matrix(const case_t *c, rng_t *r, csc_t *A)
         }
     } else if (!strcmp(fam, "diag")) {
         for (int_t j = 0; j < n && j < m; ++j) P(j, j) = 2;
+    } else if (!strcmp(fam, "svd")) {
+        /* dense matrix with prescribed singular values: A = (I-2uu^H) diag(sigma) (I-2vv^H),
+           sigma_i = cond^(-i/(n-1)), built in extended precision and rounded once */
+        free(pat); free(perm); pat = NULL; perm = NULL;
+        ld cond = (ld)cdbl(c, "cond", 100.0);
+        int mode = (int)cint(c, "svmode", 0);   /* 0 geometric, 1 one small, 2 one large */
+        ref_t *u = xmalloc((n + 1) * sizeof(ref_t)), *v = xmalloc((n + 1) * sizeof(ref_t));
+        ld nu = 0, nv = 0;
+        for (int_t i = 0; i < n; ++i) {
+            u[i] = (ld)rng_sym(r) + (IS_COMPLEX ? CI * (ld)rng_sym(r) : 0);
+            v[i] = (ld)rng_sym(r) + (IS_COMPLEX ? CI * (ld)rng_sym(r) : 0);
+            nu += creall(u[i] * conjl(u[i])); nv += creall(v[i] * conjl(v[i]));
+        }
+        nu = sqrtl(nu); nv = sqrtl(nv);
+        for (int_t i = 0; i < n; ++i) { u[i] /= nu; v[i] /= nv; }
+        ld *sg = xmalloc((n + 1) * sizeof(ld));
+        for (int_t i = 0; i < n; ++i) {
+            if (mode == 1) sg[i] = (i == n - 1) ? 1.0L / cond : 1.0L;
+            else if (mode == 2) sg[i] = (i == 0) ? 1.0L : 1.0L / cond;
+            else sg[i] = n > 1 ? powl(cond, -(ld)i / (ld)(n - 1)) : 1.0L;
+        }
+        /* M = S (I - 2 v v^H)  ->  M_ij = s_i (d_ij - 2 v_i conj(v_j));  A = M - 2 u (u^H M) */
+        ref_t *M = xmalloc((size_t)n * n * sizeof(ref_t) + 16), *uhM = xcalloc(n + 1, sizeof(ref_t));
+        for (int_t j = 0; j < n; ++j) for (int_t i = 0; i < n; ++i)
+            M[(size_t)j * n + i] = sg[i] * ((i == j ? 1.0L : 0.0L) - 2.0L * v[i] * conjl(v[j]));
+        for (int_t j = 0; j < n; ++j) { ref_t s = 0; for (int_t i = 0; i < n; ++i) s += conjl(u[i]) * M[(size_t)j * n + i]; uhM[j] = s; }
+        A->m = n; A->n = n; A->nnz = n * n;
+        A->colptr = xmalloc((n + 1) * sizeof(int_t)); A->rowind = xmalloc(((size_t)n * n + 1) * sizeof(int_t)); A->val = xmalloc(((size_t)n * n + 1) * sizeof(elem_t));
+        int_t q2 = 0;
+        for (int_t j = 0; j < n; ++j) {
+            A->colptr[j] = q2;
+            for (int_t i = 0; i < n; ++i) { A->rowind[q2] = i; A->val[q2] = R2E(M[(size_t)j * n + i] - 2.0L * u[i] * uhM[j]); ++q2; }
+        }
+        A->colptr[n] = q2;
+        free(M); free(uhM); free(u); free(v); free(sg);
+        goto scaling;
     } else {
         free(pat); free(perm);
         return -2;
@@ -154,6 +192,34 @@ int gen_matrix(const case_t *c, rng_t *r, csc_t *A)
         if ((k = cint(c, "emptyrow", -1)) >= 0 && k < m) for (int_t j = 0; j < n; ++j) P(k, j) = 0;
         if ((k = cint(c, "denserow", -1)) >= 0 && k < m) for (int_t j = 0; j < n; ++j) if (!P(k, j)) P(k, j) = 1;
         if ((k = cint(c, "densecol", -1)) >= 0 && k < n) for (int_t i = 0; i < m; ++i) if (!P(i, k)) P(i, k) = 1;
+        long ob = cint(c, "onesblock", 0);   /* isolated rank-1 block of +-1 on a random index set K (exactly singular, exact arithmetic) */
+        gen_nones = 0;
+        if (ob >= 2 && ob <= n && ob <= 64 && m == n) {
+            shuffle(r, perm, n);
+            gen_nones = (int)ob;
+            for (long q = 0; q < ob; ++q) gen_onesK[q] = perm[q];
+            for (long q = 0; q < ob; ++q) {
+                int_t k2 = perm[q];
+                for (int_t i = 0; i < m; ++i) P(i, k2) = 0;
+                for (int_t j = 0; j < n; ++j) P(k2, j) = 0;
+            }
+            for (long q = 0; q < ob; ++q) for (long q2 = 0; q2 < ob; ++q2) P(perm[q], perm[q2]) = 3;
+        }
+        long hb = cint(c, "hallblock", 0);   /* isolated Hall violator: h columns and h-1 rows that meet nothing else */
+        if (hb >= 2 && hb <= n && m == n) {
+            shuffle(r, perm, n);                 /* Kc = perm[0..hb), Kr = perm[0..hb-1) : rows are a subset of the column indices */
+            for (long q = 0; q < hb; ++q) for (int_t i = 0; i < m; ++i) P(i, perm[q]) = 0;
+            for (long q = 0; q < hb - 1; ++q) for (int_t j = 0; j < n; ++j) P(perm[q], j) = 0;
+            for (long q = 0; q < hb; ++q) {
+                int any = 0;
+                for (long t = 0; t < hb - 1; ++t) if (rng_u01(r) < 0.7) { P(perm[t], perm[q]) = 1; any = 1; }
+                if (!any) P(perm[rng_int(r, hb - 1)], perm[q]) = 1;
+            }
+            for (long t = 0; t < hb - 1; ++t) {      /* no empty row inside the block */
+                int any = 0; for (long q = 0; q < hb; ++q) if (P(perm[t], perm[q])) any = 1;
+                if (!any) P(perm[t], perm[rng_int(r, hb)]) = 1;
+            }
+        }
         long h = cint(c, "hall", 0);   /* Hall violator: h columns confined to h-1 rows */
         if (h >= 2 && h <= n && m >= h) {
             shuffle(r, perm, n);           /* choose columns */
@@ -194,6 +260,17 @@ int gen_matrix(const case_t *c, rng_t *r, csc_t *A)
                 v.r *= sc; v.i *= sc;
 #else
                 v = (elem_t)((v < 0 ? -1 : 1) * (1.0 + rng_u01(r)));
+#endif
+            }
+            if (P(i, j) == 3) {
+                /* s_i * t_j with s, t in {+1,-1} (and +-i for complex), a fixed function of the index */
+                int si = (int)((i * 2654435761u) >> 7) & 3, tj = (int)((j * 40503u) >> 3) & 3;
+#if IS_COMPLEX
+                static const double cr[4] = {1, -1, 0, 0}, ci[4] = {0, 0, 1, -1};
+                double ar = cr[si], ai = ci[si], br = cr[tj], bi = ci[tj];
+                v = MKE(ar * br - ai * bi, ar * bi + ai * br);
+#else
+                v = MKE(((si & 1) ? -1.0 : 1.0) * ((tj & 1) ? -1.0 : 1.0), 0);
 #endif
             }
             A->val[q] = v;
@@ -241,6 +318,7 @@ int gen_matrix(const case_t *c, rng_t *r, csc_t *A)
         /* dupcol=a,b : column b := column a (values and structure) -> exact numerical singularity */
     }
 
+scaling: ;
     /* --- power-of-two row/column scaling (exact) --- */
     int rs = cint(c, "rscale", 0), cs = cint(c, "cscale", 0);
     if (rs || cs) {
@@ -270,4 +348,18 @@ void gen_rhs(rng_t *r, int_t n, int_t nrhs, int_t ldb, elem_t *B, const char *mo
                 else B[(size_t)j * ldb + i] = MKE(rng_sym(r), rng_sym(r));
             } else B[(size_t)j * ldb + i] = MKE(-7777.0, 7777.0);   /* padding sentinel */
         }
+}
+
+/* exactly singular "onesblock" family: elimination reaches an all-zero column at the second
+   block column in A*Pc order, whatever the pivot order */
+long ones_expected_info(const int_t *perm_c)
+{
+    if (gen_nones < 2) return 0;
+    long a = -1, b = -1;
+    for (int q = 0; q < gen_nones; ++q) {
+        long p = perm_c[gen_onesK[q]];
+        if (a < 0 || p < a) { b = a; a = p; }
+        else if (b < 0 || p < b) b = p;
+    }
+    return b + 1;
 }
